@@ -381,4 +381,65 @@ theorem rsync_stale_tmp_leaks :
       some (true, true, some (.clean ⟨1, 10⟩), some .garbage) := by
   decide
 
+/-! ## The notification at every cut -/
+
+/-- `notification_consistent_at_every_cut` — let `update_rrdp_files` run on files whose
+notification names only files that exist with the stated content, and interrupt it anywhere:
+`ms` is any sequence of mutations that `matchLog` accepts as a run of a *prefix* of the plan
+(the same reader the driver uses on the implementation's mutation log; the clean-up phases may
+happen in any order).  Then the notification on disk still names only files that exist with the
+stated content.
+
+Preconditions (`RrdpPre`): no left-over `new-notification.xml` (otherwise F-C11-3,
+`notification_corrupt_after_stale_new_notification`), file names of the form
+`<session>/<serial>/<random>/…`, no notification from the future, contiguous deltas, and a file
+already sitting at the path of a delta or of the snapshot is that very file. -/
+theorem notification_consistent_at_every_cut (r : Rrdp) (fs : RrdpFs) (hpre : RrdpPre r fs)
+    (hc : fs.consistent = true) (log : List Sig) (ms : List Mut) (rest : Plan)
+    (hm : matchLog Mut.sig (rrdpPlan r fs) log = some (ms, rest)) :
+    (fs.applyAll ms).consistent = true :=
+  rrdp_cut_consistent hpre hc hm
+
+/-- Non-vacuity: the state after `init`, one publish and one update, on the files written at
+`init`. -/
+example :
+    let u : Uri := ⟨rsyncLower, ⟨"h", 0⟩, ⟨"m", 0⟩, ["ca", "a.cer"], false⟩
+    let r0 := Rrdp.create 1 1
+    let r := ((r0.publisherAdded ["ca"]).stage ["ca"] [.publish u ⟨1, 10⟩]).applyUpdated 0 2
+    let fs : RrdpFs := [(notifPath, .notif ⟨1, 1, ⟨snapshotPath r0, snapshotFile r0⟩, []⟩),
+                        (snapshotPath r0, .data (snapshotFile r0))]
+    RrdpPre r fs ∧ fs.consistent = true ∧ (rrdpPlan r fs).length = 3 := by
+  refine ⟨⟨by decide, ?_, ?_, ⟨by decide, ⟨rfl, by decide, trivial⟩⟩, by decide, by decide⟩,
+    by decide, by decide⟩
+  · intro n hn
+    have : n = ⟨1, 1, ⟨snapshotPath (Rrdp.create 1 1), snapshotFile (Rrdp.create 1 1)⟩, []⟩ := by
+      simp [RrdpFs.notification, RrdpFs.get?, notifPath] at hn
+      exact hn.symm
+    subst this
+    exact ⟨⟨1, rfl⟩, fun d hd => nomatch hd⟩
+  · intro n hn _ d hd
+    have : n = ⟨1, 1, ⟨snapshotPath (Rrdp.create 1 1), snapshotFile (Rrdp.create 1 1)⟩, []⟩ := by
+      simp [RrdpFs.notification, RrdpFs.get?, notifPath] at hn
+      exact hn.symm
+    subst this
+    cases hd
+
+/-- F-C11-3: files are opened without truncation.  An interruption between the creation of
+`new-notification.xml` and its rename leaves that file behind; if the next notification is
+shorter (here: after a session reset it lists no deltas, the left-over one listed two), its tail
+stays and `notification.xml` is not a well-formed file after the rename. -/
+theorem notification_corrupt_after_stale_new_notification :
+    let r : Rrdp := { session := 2, serial := 1, snapRnd := 5, snapshot := [], deltas := [], staged := [] }
+    let d3 : DataRef := ⟨[.sess 1, .num 3, .rnd 3, .name "delta.xml"], .delta 1 3 []⟩
+    let d2 : DataRef := ⟨[.sess 1, .num 2, .rnd 2, .name "delta.xml"], .delta 1 2 []⟩
+    let sn : DataRef := ⟨[.sess 1, .num 3, .rnd 1, .name "snapshot.xml"], .snapshot 1 3 []⟩
+    let stale : Notif := ⟨1, 4, sn, [(3, d3), (2, d2)]⟩
+    let fs : RrdpFs := [(notifPath, .notif ⟨1, 3, sn, [(3, d3), (2, d2)]⟩), (sn.path, .data sn.data),
+      (d3.path, .data d3.data), (d2.path, .data d2.data), (newNotifPath, .notif stale)]
+    let log : List Sig := [⟨"create", snapshotPath r, []⟩, ⟨"create", newNotifPath, []⟩,
+      ⟨"rename", newNotifPath, notifPath⟩]
+    fs.consistent = true ∧
+    (matchLog Mut.sig (rrdpPlan r fs) log).map (fun p => (fs.applyAll p.1).consistent) = some false := by
+  decide
+
 end KM.Props.C11
